@@ -31,6 +31,7 @@ type scenario struct {
 	FinishAt   int      `json:"finishAt"`
 	FinishEnd  bool     `json:"finishAtEnd"` // a HandleRequestFinish filter returns BfeHandlerFinish
 	Conc       int      `json:"conc"`
+	Flap       bool     `json:"flap"` // health flap: the only backend serves its first connection slowly, fails the others, health check brings it back
 }
 
 type attempt struct {
@@ -166,6 +167,20 @@ func runScenario(s *e2e.Server, pool map[string][]string, c scenario) error {
 		"BackendConf": {"RetryLevel": level, "TimeoutResponseHeader": 250, "TimeoutConnSrv": 1000},
 		"GslbBasic":   {"RetryMax": c.RetryMax, "CrossRetry": c.CrossRetry},
 	}}
+	if c.Flap {
+		// first connection: answer after 700 ms; every other one (requests and tcp health checks): accept and close
+		fb, _ := e2e.NewBackend(func(bc *e2e.BackendConn) {
+			if bc.Index == 0 {
+				bc.ReadRequest()
+				time.Sleep(700 * time.Millisecond)
+				bc.Conn.Write([]byte(e2e.OK("slow")))
+			}
+		})
+		defer fb.Close()
+		pool = map[string][]string{"flaky": {fb.Addr}}
+		cl.Conf["BackendConf"]["TimeoutResponseHeader"] = 3000
+		cl.Conf["CheckConf"] = map[string]interface{}{"Schem": "tcp", "FailNum": 1, "SuccNum": 1, "CheckInterval": 40}
+	}
 	if err := s.SetClusters([]e2e.Cluster{cl}, nil); err != nil {
 		return err
 	}
@@ -215,8 +230,11 @@ func runScenario(s *e2e.Server, pool map[string][]string, c scenario) error {
 		finEnd[id] = c.FinishEnd
 		mu.Unlock()
 		wg.Add(1)
-		go func(id string) {
+		go func(id string, k int) {
 			defer wg.Done()
+			if c.Flap && k > 0 {
+				time.Sleep(time.Duration(120*k) * time.Millisecond) // the slow request is in flight first
+			}
 			method := "POST"
 			if c.Get {
 				method = "GET"
@@ -240,7 +258,7 @@ func runScenario(s *e2e.Server, pool map[string][]string, c scenario) error {
 				reqs[id].status = r.Status
 			}
 			mu.Unlock()
-		}(id)
+		}(id, i)
 	}
 	wg.Wait()
 	// quiescence: FinishReq runs after the response was written; wait until the hooks are silent
